@@ -29,7 +29,7 @@ ASSUMPTIONS = ['dtcwt 0.14 coefficient tables are the reference', 'identity tole
                'have no reference counterpart and are rejected by biort(): for them only disk equality, '
                'idempotence, finiteness and continued rejection are checked']
 TIMEOUT = {'quick': 600, 'thorough': 1800}
-MIN_HELD = {'quick': 100, 'thorough': 500}
+MIN_HELD = {'quick': 100, 'thorough': 6016}
 EXHAUSTIVE = {'quick': True, 'thorough': True}
 BIORT_NAMES = ['antonini', 'legall', 'near_sym_a', 'near_sym_b', 'near_sym_b_bp']
 QSHIFT_NAMES = ['qshift_06', 'qshift_32', 'qshift_a', 'qshift_b', 'qshift_c', 'qshift_d', 'qshift_b_bp']
